@@ -36,11 +36,15 @@ pub async fn handle(
             })?;
     let consumer_group = consumer_group.read().await;
     let response = mapper::map_consumer_group(&consumer_group).await;
+    // Journal the ID the server has assigned, so that replay cannot pick a different one.
+    let assigned_group_id = consumer_group.group_id;
     drop(consumer_group);
 
     let system = system.downgrade();
     let stream_id = command.stream_id.clone();
     let topic_id = command.topic_id.clone();
+    let mut command = command;
+    command.group_id = Some(assigned_group_id);
     let group_id = command.group_id;
 
     system
